@@ -180,6 +180,8 @@ class C08(Prop):
             ev = []
             if rng.random() < 0.25:
                 ev = [("set", "onblock", rng.choice(HOOKS)), ("set", "onpermit", rng.choice(HOOKS))]
+            if rng.random() < 0.15:
+                ev.append(("set", "silent", 0))       # console output on: the breaker announces its transitions
             for _ in range(rng.choice([3, 5, 6, 8, 8, 10, 14])):
                 u = rng.random()
                 if u < 0.62:
@@ -198,8 +200,8 @@ class C08(Prop):
                     ev.append("clear")
                 else:   # a public attribute of the live loop is re-assigned (the breaker's own on/off switch included)
                     k = rng.choice(["thr", "thr", "tmo", "tmo", "ttl", "cache", "agents", "gate", "breaker", "breaker",
-                                    "onblock", "onblock", "onpermit"])
-                    ev.append(("set", k, {"onblock": rng.choice(HOOKS), "onpermit": rng.choice(HOOKS), "breaker": rng.choice([0, 0, 1]), "thr": rng.choice([1, 2, 3, 5]), "tmo": rng.choice([TMO, 1_000_000, 1, 2 * TMO]),
+                                    "onblock", "onblock", "onpermit", "silent"])
+                    ev.append(("set", k, {"silent": 0, "onblock": rng.choice(HOOKS), "onpermit": rng.choice(HOOKS), "breaker": rng.choice([0, 0, 1]), "thr": rng.choice([1, 2, 3, 5]), "tmo": rng.choice([TMO, 1_000_000, 1, 2 * TMO]),
                                           "ttl": rng.choice([TTL, 1, 0]), "cache": rng.choice([0, 1]), "agents": 0,
                                           "gate": rng.choice(GATES)}[k]))
             c = self._history(ev, thr, tmo, gate, breaker, cache, "random",
